@@ -16,7 +16,13 @@ CALLBACK_TRAITS = (
     "core::str::traits::FromStr",
 )
 SKIP_METHODS = ("::encode_raw", "::encoded_len", "::fmt", "::clear")
-LOCAL_TY = re.compile(r"((?:celestia_types|lumina_node|celestia_grpc|lumina_utils|celestia_proto)(?:::[A-Za-z_][A-Za-z_0-9]*)+)")
+LOCAL_TY = re.compile(r"((?:celestia_types|lumina_node|celestia_grpc|lumina_utils|celestia_proto|nmt_rs|leopard_codec)(?:::[A-Za-z_][A-Za-z_0-9]*)+)")
+DEP_PREFIX = ("nmt_rs::", "leopard_codec::", "<nmt_rs::", "<leopard_codec::")
+
+
+def in_dependency(path):
+    """True for bodies of the analysed dependencies (present only after Facts.load_deps)."""
+    return path.startswith(DEP_PREFIX) or (path.startswith("<") and (" nmt_rs::" in path[:200] or " leopard_codec::" in path[:200]) and not any(w in path[:120] for w in WORKSPACE))
 
 
 def is_local(path):
